@@ -54,6 +54,8 @@ props! {
     "C26" => c26,
     "C28" => c28,
     "C29" => c29,
+    "C30" => c30,
+    "C32" => c32,
     "C33" => c33,
     "C34" => c34,
     "C35" => c35,
